@@ -98,7 +98,8 @@ void sim_sink_set_faults(unsigned short_write_per_1000, unsigned error_per_1000)
 void sim_alloc_fail_next(int nth);	/* fail the nth malloc from now (0 = off)   */
 int sim_alloc_fail_fired(void);
 
-extern uint32_t sim_clock;		/* what time_now() returns */
+extern uint32_t sim_clock;
+extern int (*sim_usleep_hook)(unsigned int usec);	/* usleep() as called by posix/fibre_posix.c */		/* what time_now() returns */
 
 int sim_main(int argc, char **argv);
 
